@@ -94,6 +94,7 @@ type world struct {
 	parked   map[int]*parked
 	started  int // Do->Doing transitions not yet matched with a parked handler
 	problems []string
+	aborts   int // user aborts issued on this path (bounded)
 }
 
 var rootDir string
@@ -271,8 +272,12 @@ func (w *world) key() string {
 		if t.IsClean() {
 			sb.WriteByte('c')
 		}
+		if p := w.parked[i]; p != nil && !p.tb.Alive() {
+			sb.WriteByte('!')
+		}
 		sb.WriteByte(' ')
 	}
+	fmt.Fprintf(&sb, "a%d", w.aborts)
 	return sb.String()
 }
 
@@ -299,6 +304,16 @@ func (w *world) enabled() []event {
 	sort.Ints(pk)
 	for _, i := range pk {
 		evs = append(evs, event{Kind: "complete", T: i})
+	}
+	// one user abort per path, of the change of a task whose handler is running: the task goes to Abort, its tomb is
+	// killed, but the handler keeps executing until it is released — it must still count as running for serialization
+	if maxAborts > w.aborts && len(w.cfg.Tasks) <= abortMaxTasks {
+		for _, i := range pk {
+			if !w.parked[i].tb.Alive() {
+				continue
+			}
+			evs = append(evs, event{Kind: "abort", T: i})
+		}
 	}
 	w.st.Lock()
 	var cand []int
@@ -333,12 +348,28 @@ func (w *world) inChain(i int) bool {
 }
 
 func (w *world) apply(ev event) {
-	if ev.Kind == "ensure" {
+	switch ev.Kind {
+	case "ensure":
 		w.ensure(ev.Perm)
-	} else {
+	case "abort":
+		w.st.Lock()
+		chg := w.tasks[ev.T].Change()
+		if !chg.IsReady() {
+			chg.Abort() // as daemon/api_general.go:abortChange does
+		}
+		w.st.Unlock()
+		w.aborts++
+		// the runner kills the tomb of an aborted running task at its next Ensure pass; nothing starts here
+		w.checkExclusion()
+	default:
 		w.complete(ev.T)
 	}
 }
+
+var maxAborts = 1
+
+// aborts are explored for configurations of at most this many tasks (quick 3, thorough 4)
+var abortMaxTasks = 3
 
 type caseT struct {
 	Config config  `json:"config"`
@@ -409,7 +440,7 @@ func (x *explorer) dfs(path []event, w *world) {
 		}
 		tw.st.Lock()
 		for i, t := range tw.tasks {
-			if t.Status() != state.DoneStatus {
+			if t.Status() != state.DoneStatus && !(tw.aborts > 0 && t.Status().Ready()) {
 				x.report(path, fmt.Sprintf("progress: nothing is running and no Ensure order starts anything, but task %d (%s) is still %s", i, menu[x.cfg.Tasks[i]].Name, t.Status()))
 			}
 		}
@@ -508,6 +539,7 @@ func TestC07(t *testing.T) {
 	}
 
 	maxSize := r.Pick(4, 5)
+	abortMaxTasks = r.Pick(3, 4)
 	var cfgs []config
 	for k := 2; k <= maxSize; k++ {
 		for _, ms := range multisets(k, 0) {
